@@ -19,6 +19,7 @@ impl Sign {
 //@@ INCLUDE lib/ratio2_stubs.rs
 //@@ INCLUDE lib/ratio2_float_stubs.rs
 //@@ INCLUDE lib/ratio2_pow_stubs.rs
+//@@ INCLUDE lib/bigstub_ibig_eq.rs
 impl Repr {
 //@@ FN rational/pow/repr_sqr.rs
 //@@ FN rational/pow/repr_cubic.rs
